@@ -2,12 +2,12 @@
 
    Model of the unique-type cache of src/c/_cffi_backend.c:
      unique_cache (:400)                     dict  key bytes -> weakref(ctype)
-     get_unique_type / get_or_insert_unique_type (:4602/:4643)
-     ctypedescr_dealloc (:460) -> remove_dead_unique_reference (:4671)
+     get_or_insert_unique_type / get_unique_type (:4631/:4671)
+     ctypedescr_dealloc (:460) -> remove_dead_unique_reference (:4706)
      ctypedescr_clear (:486)  (tp_clear: the cyclic GC drops the child references BEFORE dealloc)
    The key of a type is built from its shape (kind, primitive / length / ellipsis+abi) and the
-   ADDRESSES of its child types (new_pointer_type :4905, new_array_type :4999, new_function_type
-   :6073), so address reuse after a free is the danger.  Objects therefore have an identity (oid,
+   ADDRESSES of its child types (new_pointer_type :4924, new_array_type :4987, new_function_type
+   :6101), so address reuse after a free is the danger.  Objects therefore have an identity (oid,
    never reused) and an address (reusable); the allocator is adversarial: [New] takes the address
    as an argument and only requires it to be unoccupied.
 
